@@ -25,7 +25,7 @@ func init() {
 			"blob and manifest Fetch, media type in the manifest Fetch, known length and digest agreement in the descriptor generators, digest verification after " +
 			"manifest PUT, DELETE and a 201 mount, the verifier itself rejects unparsable and unequal digests, every such verdict is propagated; " +
 			"readSeekCloser.Seek succeeds after a new request only on 206 and records the new offset, Read adds the bytes read. " +
-			"NOT decided (not applicable to static analysis): byte fidelity of fetched content, conformance of every emitted request to the spec grammar, " +
+			"(R4) every request of registry/remote has a constant method and a URL that comes from a URL builder of the package, the previous page's link or resp.Location(); RawQuery is only ever replaced by the re-encoding of the same URL's own Query() (existing parameters kept); the upload-completion PUT sets digest = expected.Digest on the Location's query before sending. NOT decided (not applicable to static analysis): byte fidelity of fetched content, conformance of every emitted request to the spec grammar, " +
 			"behaviour against all registry capability profiles and histories.",
 		Run:     runC13,
 		Mutants: c13Mutants,
@@ -37,7 +37,7 @@ func runC13(c *Ctx) {
 	c13R2(c)
 	c13Seek(c)
 	c.NotArmed("C13.R3", "routing agreement (blobStore(desc) dispatch, media-type constant sets): P2, not implemented in this round")
-	c.NotArmed("C13.R4", "request construction (URL provenance, digest query parameter): P2, not implemented in this round")
+	c13R4(c)
 }
 
 // c13AllowedStatus is the frozen exchange table: request method (+ role) →
@@ -637,6 +637,270 @@ func c13Generator(c *Ctx, RL, RG, RP string, g, V *ssa.Function) {
 	}
 }
 
+// ---------- R4 request construction ----------
+
+// c13IsURLBuilder: function of registry/remote (url.go) that renders a URL:
+// func(plainHTTP bool, ref registry.Reference, …) string.
+func c13IsURLBuilder(g *ssa.Function) bool {
+	if g == nil || g.Parent() != nil || g.Signature.Recv() != nil || fnPkgPath(g) != pkgPath(c13PkgRemote) {
+		return false
+	}
+	ps, rs := g.Signature.Params(), g.Signature.Results()
+	if ps.Len() < 2 || rs.Len() != 1 || !types.Identical(rs.At(0).Type(), types.Typ[types.String]) {
+		return false
+	}
+	return types.Identical(ps.At(0).Type(), types.Typ[types.Bool]) && c13IsNamed(ps.At(1).Type(), "registry", "Reference")
+}
+
+// c13URLSource classifies where a URL string comes from.
+// "" = not recognised.
+func c13URLSource(v ssa.Value) (kinds map[string]bool, params []*ssa.Parameter, unknown ssa.Value) {
+	kinds = map[string]bool{}
+	for _, r := range Roots(v) {
+		switch u := r.(type) {
+		case *ssa.Parameter:
+			params = append(params, u)
+			kinds["param"] = true
+			continue
+		case *ssa.Extract:
+			if call, ok := u.Tuple.(*ssa.Call); ok && u.Index == 0 && c15IsPageFn(StaticCallee(call)) {
+				kinds["next-link"] = true
+				continue
+			}
+		case *ssa.Call:
+			if c13IsURLBuilder(StaticCallee(u)) {
+				kinds["builder"] = true
+				continue
+			}
+			// builder chosen at run time: every possible callee is a builder
+			if StaticCallee(u) == nil && !u.Call.IsInvoke() {
+				all := true
+				n := 0
+				for _, fr := range Roots(u.Call.Value) {
+					g, ok := fr.(*ssa.Function)
+					n++
+					if !ok || !c13IsURLBuilder(g) {
+						all = false
+					}
+				}
+				if all && n > 0 {
+					kinds["builder"] = true
+					continue
+				}
+			}
+			if CalleeName(u) == "(*net/url.URL).String" {
+				fromLoc := true
+				for _, lr := range Roots(u.Call.Args[0]) {
+					ex, ok := lr.(*ssa.Extract)
+					if !ok || ex.Index != 0 {
+						fromLoc = false
+						continue
+					}
+					lc, ok := ex.Tuple.(*ssa.Call)
+					if !ok || CalleeName(lc) != "(*net/http.Response).Location" {
+						fromLoc = false
+					}
+				}
+				if fromLoc {
+					kinds["location"] = true
+					continue
+				}
+			}
+		}
+		return kinds, params, r
+	}
+	return kinds, params, nil
+}
+
+// c13QueryStores checks every store to (*url.URL).RawQuery in fn: the value
+// stored must be (url.Values).Encode() of the Values obtained from the same
+// URL's Query() — the query the URL already carries is kept, parameters are
+// only set/added.  Returns the stores and, for an offending one, the reason.
+// c13URLOwner: v is a load of the URL field of an *http.Request → that request.
+func c13URLOwner(v ssa.Value) (req ssa.Value, ok bool) {
+	{
+		for _, r := range Roots(v) {
+			ld, isLoad := r.(*ssa.UnOp)
+			if !isLoad || ld.Op != token.MUL {
+				return nil, false
+			}
+			fa, isFA := ld.X.(*ssa.FieldAddr)
+			if !isFA || !c13IsNamed(fa.X.Type(), c13PkgHTTP, "Request") || c13FieldNameOf(fa.X.Type(), fa.Field) != "URL" {
+				return nil, false
+			}
+			if req != nil && req != fa.X && !SameValue(req, fa.X) {
+				return nil, false
+			}
+			req = fa.X
+		}
+	}
+	return req, req != nil
+}
+
+func c13QueryStores(fn *ssa.Function) (stores []*ssa.Store, bad *ssa.Store, why string) {
+	stores = c13FieldStores(fn, "net/url", "URL", "RawQuery", nil)
+	for _, s := range stores {
+		if w := c13QueryStoreOK(s, c13URLOwner); w != "" && bad == nil {
+			bad, why = s, w
+		}
+	}
+	return stores, bad, why
+}
+
+func c13QueryStoreOK(s *ssa.Store, urlOf func(ssa.Value) (ssa.Value, bool)) string {
+	{
+		dst, okDst := urlOf(s.Addr.(*ssa.FieldAddr).X)
+		for _, rt := range Roots(s.Val) {
+			enc, ok := rt.(*ssa.Call)
+			if !ok || CalleeName(enc) != "(net/url.Values).Encode" {
+				return "the query is replaced by " + describe(rt) + ", not by the encoding of the URL's own Query(): parameters the URL already carries are dropped"
+			}
+			for _, q := range Roots(enc.Call.Args[0]) {
+				qc, ok := q.(*ssa.Call)
+				if !ok || CalleeName(qc) != "(*net/url.URL).Query" {
+					return "the encoded Values do not come from the URL's own Query(): parameters the URL already carries are dropped"
+				}
+				src, okSrc := urlOf(qc.Call.Args[0])
+				if !okDst || !okSrc || (src != dst && !SameValue(src, dst)) {
+					return "the Values encoded into RawQuery were taken from a different URL"
+				}
+			}
+		}
+	}
+	return ""
+}
+
+func c13R4(c *Ctx) {
+	const (
+		RU = "C13.R4.request-url-provenance"
+		RQ = "C13.R4.query-preserved"
+		RD = "C13.R4.upload-digest-parameter"
+	)
+	c.Expect(RU, 16)
+	c.Expect(RQ, 4)
+	c.Expect(RD, 1)
+	methods := map[string]bool{"GET": true, "HEAD": true, "PUT": true, "POST": true, "DELETE": true}
+	for _, f := range c.P.FuncsOfPkg(c13PkgRemote) {
+		fn := FnName(f)
+		for n, nr := range CallsTo(f, "net/http.NewRequestWithContext", "net/http.NewRequest") {
+			key := fmt.Sprintf("%s|request#%d", fn, n+1)
+			mi, ui := 1, 2
+			if CalleeName(nr) == "net/http.NewRequest" {
+				mi, ui = 0, 1
+			}
+			m, isConst := constString(nr.Common().Args[mi])
+			if !isConst || !methods[m] {
+				c.Violation(RU, key, nr.Pos(), "the request method is not one of the constant methods of the distribution API")
+				continue
+			}
+			kinds, params, unknown := c13URLSource(nr.Common().Args[ui])
+			if unknown != nil {
+				c.Violation(RU, key, nr.Pos(), "the request URL ("+describe(unknown)+") comes neither from a URL builder of the package, nor from the next-page link, nor from resp.Location()")
+				continue
+			}
+			ok, why := true, ""
+			// a URL handed in as parameter: every caller passes a builder result or the previous page's link
+			for _, prm := range params {
+				idx := -1
+				for i, q := range f.Params {
+					if q == prm {
+						idx = i
+					}
+				}
+				callers := 0
+				for _, g := range c.P.FuncsOfPkg(c13PkgRemote) {
+					for _, call := range c13CallsToFn(g, f) {
+						callers++
+						k2, p2, u2 := c13URLSource(call.Common().Args[idx])
+						if u2 != nil || len(p2) > 0 || k2["location"] {
+							ok, why = false, "caller "+FnName(g)+" passes a URL that is neither a builder result nor the previous page's link"
+						}
+					}
+				}
+				if callers == 0 {
+					ok, why = false, "the URL is a parameter and no caller in the package was found"
+				}
+			}
+			var ks []string
+			for k := range kinds {
+				ks = append(ks, k)
+			}
+			sort.Strings(ks)
+			c.Check(RU, key+"|"+m, nr.Pos(), ok, ifelse(ok, "constant method; URL from: "+strings.Join(ks, ","), why))
+
+			// the upload-completion PUT: URL is the Location; the digest parameter is added to its query
+			if kinds["location"] {
+				req := c13AliasSet(ResultOf(nr, 0))
+				var sets []ssa.CallInstruction
+				for _, set := range CallsTo(f, "(net/url.Values).Set", "(net/url.Values).Add") {
+					k, isK := constString(set.Common().Args[1])
+					if !isK || k != "digest" {
+						continue
+					}
+					// value: String() of the Digest field of the expected descriptor
+					okVal := false
+					for _, r := range Roots(set.Common().Args[2]) {
+						if sc, isCall := r.(*ssa.Call); isCall && CalleeName(sc) == "(digest.Digest).String" {
+							dl := c13FieldLoads(f, c13PkgOCI, "Descriptor", "Digest", nil)
+							if dl[sc.Call.Args[0]] {
+								okVal = true
+							}
+						}
+					}
+					// the Values are this request's query
+					okQ := false
+					for _, q := range Roots(set.Common().Args[0]) {
+						if qc, isCall := q.(*ssa.Call); isCall && CalleeName(qc) == "(*net/url.URL).Query" {
+							for _, ur := range Roots(qc.Call.Args[0]) {
+								if ld, isLoad := ur.(*ssa.UnOp); isLoad {
+									if fa, isFA := ld.X.(*ssa.FieldAddr); isFA && req[fa.X] {
+										okQ = true
+									}
+								}
+							}
+						}
+					}
+					if okVal && okQ {
+						sets = append(sets, set)
+					}
+				}
+				stores, _, _ := c13QueryStores(f)
+				okD := len(sets) > 0
+				whyD := "no Query().Set(\"digest\", expected.Digest.String()) on the request built from the Location"
+				for _, site := range c13SendSites(f) {
+					if !c13RootsIn(c13RequestArg(site), req) && !req[c13RequestArg(site)] {
+						continue
+					}
+					if !MustPass(site.(ssa.Instruction), newCut().Calls(sets)) {
+						okD, whyD = false, "the PUT can be sent without the digest parameter having been set"
+					}
+					stored := false
+					for _, st := range stores {
+						for _, set := range sets {
+							if Dominates(set.(ssa.Instruction), st) && MustPass(site.(ssa.Instruction), newCut().Instr(st)) {
+								stored = true
+							}
+						}
+					}
+					if okD && !stored {
+						okD, whyD = false, "the Values carrying the digest are not encoded back into RawQuery before the PUT"
+					}
+				}
+				c.Check(RD, fn+"|digest-added-to-location-query", nr.Pos(), okD, ifelse(okD, "digest = expected.Digest is set on the Location's own query and encoded back before the PUT", whyD))
+			}
+		}
+		stores, _, _ := c13QueryStores(f)
+		for i, s := range stores {
+			key := fmt.Sprintf("%s|RawQuery#%d", fn, i+1)
+			if why := c13QueryStoreOK(s, c13URLOwner); why != "" {
+				c.Violation(RQ, key, s.Pos(), why+" (an upload Location or a Link URL may carry state the server needs back)")
+			} else {
+				c.OK(RQ, key, s.Pos(), "RawQuery = URL.Query() with parameters set/added, re-encoded")
+			}
+		}
+	}
+}
+
 // ---------- readSeekCloser ----------
 
 func c13Seek(c *Ctx) {
@@ -798,6 +1062,26 @@ func c13Seek(c *Ctx) {
 }
 
 var c13Mutants = []Mutant{
+	{Name: "upload-put-query-rebuilt", File: "registry/remote/repository.go",
+		Old:    "\tq := req.URL.Query()\n\tq.Set(\"digest\", expected.Digest.String())\n\treq.URL.RawQuery = q.Encode()",
+		New:    "\treq.URL.RawQuery = \"digest=\" + expected.Digest.String()",
+		Expect: "C13.R4.query-preserved"},
+	{Name: "upload-put-fresh-values", File: "registry/remote/repository.go",
+		Old:    "\tq := req.URL.Query()\n\tq.Set(\"digest\", expected.Digest.String())\n\treq.URL.RawQuery = q.Encode()",
+		New:    "\tq := resp.Request.URL.Query()\n\tq.Set(\"digest\", expected.Digest.String())\n\treq.URL.RawQuery = q.Encode()",
+		Expect: "C13.R4"},
+	{Name: "upload-put-digest-only-when-query-empty", File: "registry/remote/repository.go",
+		Old:    "\tq := req.URL.Query()\n\tq.Set(\"digest\", expected.Digest.String())\n\treq.URL.RawQuery = q.Encode()",
+		New:    "\tq := req.URL.Query()\n\tif len(q) == 0 {\n\t\tq.Set(\"digest\", expected.Digest.String())\n\t}\n\treq.URL.RawQuery = q.Encode()",
+		Expect: "C13.R4.upload-digest-parameter"},
+	{Name: "upload-put-url-from-request", File: "registry/remote/repository.go",
+		Old:    "\turl := location.String()\n\treq, err = http.NewRequestWithContext(ctx, http.MethodPut, url, content)",
+		New:    "\turl := location.String()\n\tif locationHostname == \"\" {\n\t\turl = req.URL.String()\n\t}\n\treq, err = http.NewRequestWithContext(ctx, http.MethodPut, url, content)",
+		Expect: "C13.R4.request-url-provenance"},
+	{Name: "referrers-page-query-rebuilt", File: "registry/remote/repository.go",
+		Old:    "\t\tq := req.URL.Query()\n\t\tq.Set(\"n\", strconv.Itoa(r.ReferrerListPageSize))\n\t\treq.URL.RawQuery = q.Encode()",
+		New:    "\t\treq.URL.RawQuery = \"n=\" + strconv.Itoa(r.ReferrerListPageSize)",
+		Expect: "C13.R4.query-preserved"},
 	{Name: "delete-accepts-any-2xx", File: "registry/remote/repository.go",
 		Old:    "\tcase http.StatusAccepted:\n\t\treturn verifyContentDigest(resp, target.Digest)\n\tcase http.StatusNotFound:\n\t\treturn fmt.Errorf(\"%s: %w\", target.Digest, errdef.ErrNotFound)\n\tdefault:\n\t\treturn errutil.ParseErrorResponse(resp)\n\t}",
 		New:    "\tcase http.StatusNotFound:\n\t\treturn fmt.Errorf(\"%s: %w\", target.Digest, errdef.ErrNotFound)\n\tdefault:\n\t\tif resp.StatusCode >= 400 {\n\t\t\treturn errutil.ParseErrorResponse(resp)\n\t\t}\n\t\treturn verifyContentDigest(resp, target.Digest)\n\t}",
